@@ -57,8 +57,8 @@ def main():
         if valid:
             dst = os.path.join(HERE, 'seeded', sid)
             os.makedirs(dst, exist_ok=True)
-            shutil.copy(os.path.join(src, 'patch.diff'), dst)
-            shutil.copy(os.path.join(src, 'demo.py'), dst)
+            if os.path.abspath(src) != os.path.abspath(dst): shutil.copy(os.path.join(src, "patch.diff"), dst)
+            if os.path.abspath(src) != os.path.abspath(dst): shutil.copy(os.path.join(src, "demo.py"), dst)
             meta['properties'] = props
             meta['validated'] = {'repo_head': sh('git -C /repo rev-parse --short HEAD')[1].strip(),
                                  'tests': res.get('tests_tail', 'not run'), 'demo_without_exit': res['demo_without'],
